@@ -361,7 +361,7 @@ func step(st St, in In, out Out) (bool, St) {
 	case OGetExp:
 		if out.Err == "" {
 			if !st.L {
-				return st.P && out.Exp == 0, st // a tombstone row answers with its (cleared) expiry; "missing" is as good
+				return false, st // a deleted key is reported missing by GetExpiry too (C01)
 			}
 			if !(st.E == -1 || st.E == int64(out.Exp)) {
 				return false, st
